@@ -1326,11 +1326,14 @@ static int mode_total(Args &args, Result &total)
             if (must.size()) {
               r.count("total_ref_must_reject");
               bool acc_fresh = false;
-              if (s.accepted) {
+              static std::map<std::string, int> confirmed;  // per worker: wrong acceptances confirmed on a fresh module
+              if (s.accepted && confirmed[must] >= 5) acc_fresh = true;  // same class already confirmed 5 times here
+              else if (s.accepted) {
                 std::vector<Slot> one;
                 run_batch(1, [&](size_t, Slot &x) { exec_parse(conf, x); }, 30.0, one);
                 acc_fresh = (one[0].status == 1 && one[0].accepted);
                 if (!acc_fresh) r.count("total_accepted_on_live_module_only");
+                else confirmed[must]++;
               }
               if (acc_fresh) {
                 r.violation("C09:strict:token-string:" + must + ":accepted",
